@@ -140,7 +140,8 @@ def check(out, ctx):
             d = os.path.join(tmp, "h%d" % hi)
             os.makedirs(d)
             src = os.path.join(d, "g.ebnf")
-            dst = os.path.join(d, "out.rs") if mode == "dest" else os.path.join(d, "g.rs")
+            # explicit destinations: also names that do not end in .rs
+            dst = os.path.join(d, ["out.rs", "parser.rs.in", "gen.inc", "noext"][(hi // 3) % 4]) if mode == "dest" else os.path.join(d, "g.rs")
             cur_text, prefix = None, b""
             origin = None
             impl_out = []
